@@ -2,12 +2,15 @@ package main
 
 import (
 	"fmt"
+	"io/ioutil"
+	"log"
 	"os"
 )
 
 var cmds = map[string]func(args []string) error{}
 
 func main() {
+	log.SetOutput(ioutil.Discard) // the library logs ignored lines through the log package
 	if len(os.Args) < 2 {
 		fmt.Fprintln(os.Stderr, "usage: drive <cmd> ...")
 		os.Exit(2)
